@@ -116,7 +116,67 @@ func (c *Check) feeUnits(rule string) *feeUnits {
 		}
 	}
 	c.fu = u
+	c.expandHandlerDecisions(u)
 	return u
+}
+
+// expandHandlerDecisions: where an end-block handler has handed its decisions to a singly-referenced function (the
+// handler body moved into a keeper method that charges, pauses, issues or skips), that function is walked in place
+// whenever the handler's paths are enumerated, so that the handler's rules see each decision with the facts it is
+// taken under. Handlers that decide in their own code are left as they are.
+func (c *Check) expandHandlerDecisions(u *feeUnits) {
+	role := func(e *Eff) bool { return e.Mutates() && (e.Kind == "store" || e.Kind == "bank") }
+	changed := false
+	for _, b := range []*Binding{u.NB, u.EB, u.ER} {
+		if b == nil || b.Closure == nil {
+			continue
+		}
+		f := b.Closure
+		if c.P.forceSplice[f] != nil {
+			continue
+		}
+		rc := c.P.refCount()
+		force := map[*Func]bool{}
+		for _, pa := range c.P.PathsOf(f) {
+			for _, ev := range pa.Events {
+				if ev.Kind != EvCall || ev.CI.fn == nil {
+					continue
+				}
+				g := ev.CI.fn
+				if force[g] || g == f || !g.isHandWritten() || g.Body == nil || g.Obj == nil || c.P.inlineTarget(g) || c.P.pathsBusy[g] {
+					continue
+				}
+				if rc[g.Obj] != 1 || c.P.refsOther[g.Obj] > 0 || g == u.BS || g == u.RF || g == u.EF || g == u.FL || g == u.PR {
+					continue
+				}
+				guards := map[string]bool{}
+				kinds := map[string]bool{}
+				for _, e := range c.P.SummaryOf(g).Effs {
+					if !role(e) {
+						continue
+					}
+					guards[strings.Join(e.Guards.Sorted(), " & ")] = true
+					kinds[e.Kind+e.Op+e.Family] = true
+				}
+				// several kinds of state change under different conditions: the callee takes a decision
+				if len(guards) >= 3 && len(kinds) >= 3 {
+					force[g] = true
+				}
+			}
+		}
+		if len(force) == 0 {
+			continue
+		}
+		if c.P.forceSplice == nil {
+			c.P.forceSplice = map[*Func]map[*Func]bool{}
+		}
+		c.P.forceSplice[f] = force
+		delete(c.P.pathsMemo, f)
+		changed = true
+	}
+	if changed {
+		c.P.summaryMemo = map[*Func]*Summary{}
+	}
 }
 
 func (u *feeUnits) complete() bool {
@@ -175,7 +235,7 @@ func (c *Check) analyseNB(u *feeUnits) []*nbPath {
 			continue
 		}
 		n := &nbPath{pa: pa}
-		af := pa.AllFacts()
+		af := c.closeFacts(pa.AllFacts())
 		for _, ev := range pa.Events {
 			if ev.Kind != EvCall {
 				continue
@@ -333,7 +393,11 @@ func (c *Check) newBatchRules(prefix string, want map[string]bool) {
 
 // providerListArg: the argument of a call of the batch-start function that is bound to its []AccAddress parameter.
 func (c *Check) providerListArg(bs *Func, call *Event) *Term {
-	if bs == nil || call == nil || call.CI == nil {
+	return c.providerListArgD(bs, call, 0)
+}
+
+func (c *Check) providerListArgD(bs *Func, call *Event, depth int) *Term {
+	if bs == nil || call == nil || call.CI == nil || depth > 3 {
 		return nil
 	}
 	for i, pr := range bs.Params {
@@ -341,5 +405,58 @@ func (c *Check) providerListArg(bs *Func, call *Event) *Term {
 			return call.CI.args[i]
 		}
 	}
+	// a function that hands the list on inside a record it was given (a plan): the list it issues to, over its own
+	// parameters, on this call's arguments
+	if c.fu == nil || c.fu.BS == nil || bs.Body == nil || c.P.pathsBusy[bs] {
+		return nil
+	}
+	for _, pa := range c.P.PathsOf(bs) {
+		for _, ev := range pa.Events {
+			if ev.Kind != EvCall || ev.CI.fn == nil || ev.CI.fn == bs {
+				continue
+			}
+			if ev.CI.fn != c.fu.BS && !c.handsListOn(ev.CI.fn, depth+1) {
+				continue
+			}
+			inner := c.providerListArgD(ev.CI.fn, ev, depth+1)
+			if inner == nil {
+				continue
+			}
+			m := map[string]*Term{}
+			for i, a := range call.CI.args {
+				m[fmt.Sprintf("P%d", i)] = a
+			}
+			if call.CI.recv != nil {
+				m["Precv"] = call.CI.recv
+			}
+			return simplify(inner.Subst(m))
+		}
+	}
 	return nil
+}
+
+// handsListOn: g calls the batch-start function (or such a function) with a provider list taken from its own parameters.
+func (c *Check) handsListOn(g *Func, depth int) bool {
+	if g == nil || g.Body == nil || depth > 3 || c.P.pathsBusy[g] || !g.isHandWritten() {
+		return false
+	}
+	for _, pa := range c.P.PathsOf(g) {
+		for _, ev := range pa.Events {
+			if ev.Kind == EvCall && ev.CI.fn != nil && ev.CI.fn != g && (ev.CI.fn == c.fu.BS || c.handsListOn(ev.CI.fn, depth+1)) {
+				if l := c.providerListArgD(ev.CI.fn, ev, depth+1); l != nil && fromOwnParam(l) {
+					return true
+				}
+			}
+		}
+	}
+	return false
+}
+
+// fromOwnParam: a parameter, or a field of a parameter.
+func fromOwnParam(t *Term) bool {
+	t = stripConv(t)
+	for strings.HasPrefix(t.Op, ".") && len(t.A) == 1 {
+		t = stripConv(t.A[0])
+	}
+	return t.Op == "" && strings.HasPrefix(t.At, "P")
 }
